@@ -369,6 +369,25 @@ def mpiOpFunctor : String → Option String
   | "MPI_MAX" => some "Max"
   | _ => none
 
+/-- type classes of MPI 3.1 §5.9.2 (`MPI_CHAR` is a character type in the standard; Open MPI reduces it like an
+integer, which is what the pinned tree relies on for `char`, so it is listed as integer here) -/
+def mpiTypeClass : String → Option String
+  | "MPI_CHAR" | "MPI_SIGNED_CHAR" | "MPI_UNSIGNED_CHAR" | "MPI_SHORT" | "MPI_UNSIGNED_SHORT" | "MPI_INT" | "MPI_UNSIGNED"
+  | "MPI_LONG" | "MPI_UNSIGNED_LONG" | "MPI_LONG_LONG" | "MPI_LONG_LONG_INT" | "MPI_UNSIGNED_LONG_LONG" => some "integer"
+  | "MPI_FLOAT" | "MPI_DOUBLE" | "MPI_LONG_DOUBLE" => some "floating"
+  | "MPI_CXX_FLOAT_COMPLEX" | "MPI_CXX_DOUBLE_COMPLEX" | "MPI_CXX_LONG_DOUBLE_COMPLEX" => some "complex"
+  | "MPI_CXX_BOOL" | "MPI_C_BOOL" => some "logical"
+  | "MPI_BYTE" => some "byte"
+  | _ => none
+
+/-- MPI 3.1 §5.9.2: `MPI_SUM`/`MPI_PROD` are defined on integer, floating point and complex types, `MPI_MIN`/`MPI_MAX`
+on integer and floating point types; none of the four on logical or byte types (a call is erroneous: `MPI_ERR_OP`) -/
+def mpiOpDefinedOn (op dt : String) : Bool :=
+  match mpiTypeClass dt with
+  | some "integer" | some "floating" => op == "MPI_SUM" || op == "MPI_PROD" || op == "MPI_MIN" || op == "MPI_MAX"
+  | some "complex" => op == "MPI_SUM" || op == "MPI_PROD"
+  | _ => false
+
 /-! ## (ii) MPIPack -/
 
 /-- abstract fixed-width encoder of one cell into `w` bytes; `dec ∘ enc = id` is MPI's contract for
@@ -490,7 +509,7 @@ def tyMap : String → Option TMap
   | "uchar" | "short" | "ushort" | "uint" | "ulong" | "float" | "ldouble" => some (basic 1)
   | "cfloat" | "cldouble" => some (basic 2)
   -- types without a specialisation: `MPI_Type_contiguous(sizeof(T), MPI_BYTE)`; one cell per member here
-  | "llong" => some (contiguous 1 (basic 1))
+  | "llong" | "bool" | "schar" | "ullong" => some (contiguous 1 (basic 1))
   | "pod" => some (contiguous 3 (basic 1))
   | "fv3" => some (fieldVector 0 3 (basic 1))
   | "fv2" => some (fieldVector 0 2 (basic 1))
@@ -518,7 +537,7 @@ def zipOp (f : Int → Int → Int) (a b : List Int) : List Int := List.zipWith 
 
 def isLightArith (ty : String) : Bool :=
   ty == "uchar" || ty == "short" || ty == "ushort" || ty == "uint" || ty == "ulong" || ty == "float" || ty == "ldouble"
-    || ty == "llong"
+    || ty == "llong" || ty == "bool" || ty == "schar" || ty == "ullong"
 
 def complexMul (a b : List Int) : List Int :=
   match a, b with
@@ -577,7 +596,8 @@ def redOp (ty fn : String) : Option (List Int → List Int → List Int) :=
     (if (genericTypes fn).contains ty then genericOp ty (plainFun fn) else none)
   else if isLightArith ty then
     match fn with
-    | "sum" => some (zipOp (· + ·))
+    -- `std::plus<bool>` converts the `int` sum back to `bool`: logical or (prod/min/max stay within {0,1})
+    | "sum" => some (if ty == "bool" then zipOp (fun a b => if a + b != 0 then 1 else 0) else zipOp (· + ·))
     | "prod" => some (zipOp (· * ·))
     | "min" => some (zipOp min)
     | "max" => some (zipOp max)
@@ -686,6 +706,8 @@ end Reg
 /-- C++ spelling of the harness element types (only used as registry arguments) -/
 def cppType : String → String
   | "llong" => "long long"
+  | "schar" => "signed char"
+  | "ullong" => "unsigned long long"
   | "uchar" => "unsigned char"
   | "ushort" => "unsigned short"
   | "uint" => "unsigned int"
@@ -711,6 +733,9 @@ def cppType : String → String
 /-- the `MPITraits<…>::getType()` singletons behind an element type (the type itself first, then its members) -/
 def tyUses : String → List Reg.Use
   | "llong" => [⟨"MPITraits<$1>", [("1", "long long")]⟩]
+  | "bool" => [⟨"MPITraits<$1>", [("1", "bool")]⟩]
+  | "schar" => [⟨"MPITraits<$1>", [("1", "signed char")]⟩]
+  | "ullong" => [⟨"MPITraits<$1>", [("1", "unsigned long long")]⟩]
   | "pod" => [⟨"MPITraits<$1>", [("1", "Pod")]⟩]
   | "fv3" => [⟨"MPITraits<FieldVector<$1,$2>>", [("1", "int"), ("2", "3")]⟩]
   | "fv2" => [⟨"MPITraits<FieldVector<$1,$2>>", [("1", "int"), ("2", "2")]⟩]
